@@ -2,7 +2,9 @@
 package nlp
 
 import (
+	"maps"
 	"math"
+	"slices"
 	"sort"
 	"strings"
 	"unicode"
@@ -68,9 +70,12 @@ func (s *TFIDFSearcher) buildIndex() {
 	}
 
 	// Step 2: Build vocabulary index
+	// Number the vocabulary in sorted word order so that the index (and every
+	// floating-point sum taken in index order below) is the same on every run.
 	s.vocabulary = make(map[string]int)
 	vocabIndex := 0
-	for word, docCount := range wordCounts {
+	for _, word := range slices.Sorted(maps.Keys(wordCounts)) {
+		docCount := wordCounts[word]
 		// Include unique terms (docCount >= 1) as they are highly discriminating
 		// Upper bound at 80% to exclude only very common terms
 		maxDocs := len(s.commands) * 8 / 10
@@ -107,8 +112,8 @@ func (s *TFIDFSearcher) buildIndex() {
 		s.commandTF[i] = make(map[int]float64)
 		var norm float64
 
-		for termIdx, count := range termCounts {
-			tf := float64(count) / float64(len(words))
+		for _, termIdx := range slices.Sorted(maps.Keys(termCounts)) {
+			tf := float64(termCounts[termIdx]) / float64(len(words))
 			tfidf := tf * s.idf[termIdx]
 			s.commandTF[i][termIdx] = tfidf
 			norm += tfidf * tfidf
@@ -164,8 +169,8 @@ func (s *TFIDFSearcher) Search(query string, limit int) []TFIDFResult {
 
 	// Calculate query TF-IDF
 	var queryNorm float64
-	for termIdx, count := range queryTermCounts {
-		tf := float64(count) / float64(len(queryTokens))
+	for _, termIdx := range slices.Sorted(maps.Keys(queryTermCounts)) {
+		tf := float64(queryTermCounts[termIdx]) / float64(len(queryTokens))
 		tfidf := tf * s.idf[termIdx]
 		queryVector[termIdx] = tfidf
 		queryNorm += tfidf * tfidf
@@ -191,7 +196,7 @@ func (s *TFIDFSearcher) Search(query string, limit int) []TFIDFResult {
 	}
 
 	// Sort by similarity (descending)
-	sort.Slice(results, func(i, j int) bool {
+	sort.SliceStable(results, func(i, j int) bool {
 		return results[i].Similarity > results[j].Similarity
 	})
 
@@ -211,9 +216,9 @@ func (s *TFIDFSearcher) cosineSimilarity(queryVector map[int]float64, queryNorm 
 	}
 
 	var dotProduct float64
-	for termIdx, queryTFIDF := range queryVector {
+	for _, termIdx := range slices.Sorted(maps.Keys(queryVector)) {
 		if docTFIDF, exists := docVector[termIdx]; exists {
-			dotProduct += queryTFIDF * docTFIDF
+			dotProduct += queryVector[termIdx] * docTFIDF
 		}
 	}
 
